@@ -162,11 +162,22 @@ var fnTable = map[string]func(a *fnArgs, o *ob){
 		eq, e := sipsp.URIParamsEq(bytesOf(a.S), 0, bytesOf(a.S2), 0)
 		o.bool("eq", eq)
 		o.str("err", errName(e))
+		// the same two lists inside larger buffers, at different offsets: same answer (real against real)
+		b1 := append([]byte("sip:a@b;"), bytesOf(a.S)...)
+		b2 := append([]byte("x;"), bytesOf(a.S2)...)
+		if eq2, e2 := sipsp.URIParamsEq(b1, 8, b2, 2); eq2 != eq || e2 != e {
+			o.str("shifted", fmt.Sprintf("at offsets 8 / 2: eq=%v err=%s", eq2, errName(e2)))
+		}
 	},
 	"URIHdrsEq": func(a *fnArgs, o *ob) {
 		eq, e := sipsp.URIHdrsEq(bytesOf(a.S), 0, bytesOf(a.S2), 0)
 		o.bool("eq", eq)
 		o.str("err", errName(e))
+		b1 := append([]byte("sip:a@b?"), bytesOf(a.S)...)
+		b2 := append([]byte("x?"), bytesOf(a.S2)...)
+		if eq2, e2 := sipsp.URIHdrsEq(b1, 8, b2, 2); eq2 != eq || e2 != e {
+			o.str("shifted", fmt.Sprintf("at offsets 8 / 2: eq=%v err=%s", eq2, errName(e2)))
+		}
 	},
 	"URIParamResolve": func(a *fnArgs, o *ob) { o.int("t", int(sipsp.URIParamResolve(bytesOf(a.S)))) },
 	"IP4Prefix": func(a *fnArgs, o *ob) {
